@@ -655,4 +655,107 @@ theorem step_sim {env : Env} (h : EnvOK env) {st : Iter} {c : Cursor} (hR : R st
             seamB := hinv.seamB }
         exact R.atv _ hinv'
 
+/-- `generate_next_primes` from a state with a non-empty buffer: the new block starts with the
+    prime following the last prime of the old buffer (or the call fails because that prime does
+    not fit in 64 bits) -/
+theorem generateNext_at {env : Env} (h : EnvOK env) (k : Nat) (st : Iter) (hinv : AtInv st) :
+    match st.generateNext env k with
+    | .error e => e = .overflow ∧ ¬ nextPrime (st.buf.getD (st.size - 1) 0 + 1) < U64
+    | .ok st' => nextPrime (st.buf.getD (st.size - 1) 0 + 1) < U64 ∧ st'.i = 0 ∧
+        st'.buf.getD 0 0 = nextPrime (st.buf.getD (st.size - 1) 0 + 1) ∧ AtInv st' ∧ st'.hint = st.hint := by
+  rcases st with ⟨i, size, start, hint, buf, stop, dist, incl, gen⟩
+  have hincl : incl = false := hinv.incl
+  subst hincl
+  cases gen with
+  | none =>
+    have hseam := hinv.seamF
+    simp only at hseam
+    have hs := genNextFresh_spec h k (Iter.mk i size start hint buf stop dist false none) hinv.stop_le
+    simp only [Iter.generateNext]
+    simp only [Bool.false_eq_true, if_false] at hs
+    cases hr : genNextFresh env k (Iter.mk i size start hint buf stop dist false none) with
+    | error e =>
+      rw [hr] at hs
+      simp only at hs ⊢
+      rw [hseam]
+      exact ⟨hs.1, by omega⟩
+    | ok st' =>
+      rw [hr] at hs
+      simp only at hs ⊢
+      rw [hseam]
+      exact ⟨hs.lt, hs.i0, hs.head, atInv_of_fwdPost hs, hs.hint⟩
+  | some g =>
+    have hseam := hinv.seamF
+    simp only at hseam
+    obtain ⟨hgs, hglo, hseam⟩ := hseam
+    have hsp := fillNext_spec h g k
+    simp only [Iter.generateNext]
+    cases hf : g.fillNext env k with
+    | error e =>
+      rw [hf] at hsp
+      obtain ⟨he, hstop, hnil⟩ := hsp
+      simp only
+      refine ⟨he, ?_⟩
+      rw [hseam]
+      intro hlt
+      rw [primesHO_eq_nil_iff] at hnil
+      refine hnil _ (le_nextPrime _) ?_ (nextPrime_prime _)
+      rw [U64_eq_succ] at hlt; omega
+    | ok r =>
+      obtain ⟨blk, g'⟩ := r
+      rw [hf] at hsp
+      obtain ⟨hgs', hlo, hmax, hblk, hbound, hnil⟩ := hsp
+      simp only
+      by_cases hb : blk.isEmpty = true
+      · have hbn : blk = [] := List.isEmpty_iff.1 hb
+        obtain ⟨hnil, hlt⟩ := hnil hbn
+        rw [primesHO_eq_nil_iff] at hnil
+        have hT : nextPrime (buf.getD (size - 1) 0 + 1) = nextPrime (stop + 1) := by
+          rw [hseam, ← hgs]
+          apply nextPrime_eq_nextPrime hglo
+          intro q h1 h2; exact hnil q h1 h2
+        have hs := genNextFresh_spec h k (Iter.mk 0 0 start hint [] stop dist false none) hinv.stop_le
+        simp only [Bool.false_eq_true, if_false] at hs
+        simp only [hb, if_true]
+        cases hr : genNextFresh env k (Iter.mk 0 0 start hint [] stop dist false none) with
+        | error e =>
+          rw [hr] at hs
+          simp only at hs ⊢
+          rw [hT]
+          exact ⟨hs.1, by omega⟩
+        | ok st' =>
+          rw [hr] at hs
+          simp only at hs ⊢
+          rw [hT]
+          exact ⟨hs.lt, hs.i0, hs.head, atInv_of_fwdPost hs, hs.hint⟩
+      · simp only [hb, Bool.false_eq_true, if_false]
+        have hbn : blk ≠ [] := by intro hh; rw [hh] at hb; simp at hb
+        have hlen : 0 < blk.length := List.length_pos_iff.2 hbn
+        have hhead : blk.getD 0 0 = nextPrime (buf.getD (size - 1) 0 + 1) := by
+          rw [hseam]
+          have hbn' := hbn
+          rw [hblk] at hbn' ⊢
+          exact primesHO_head hbn'
+        have hgsl : g.stop ≤ umax := by rw [hgs]; exact hinv.stop_le
+        have hlt : nextPrime (buf.getD (size - 1) 0 + 1) < U64 := by
+          rw [← hhead, U64_eq_succ]
+          have := hbound _ (getD_mem (l := blk) (j := 0) hlen)
+          omega
+        have hinv' : AtInv (Iter.mk 0 blk.length start hint blk stop dist false (some g')) :=
+          { size_eq := rfl, i_lt := hlen,
+            consec := by show Consec blk; rw [hblk]; exact consec_primesHO _ _,
+            incl := rfl, stop_le := hinv.stop_le, start_le := hinv.start_le,
+            bound := fun x hx => Nat.le_trans (hbound x hx) hgsl,
+            seamF := by
+              refine ⟨by rw [hgs', hgs], ?_, ?_⟩
+              · rw [hgs']
+                have : max g.lo (g.stop + 1) = g.stop + 1 := Nat.max_eq_right hglo
+                rw [this] at hmax; exact hmax
+              · show nextPrime (blk.getD (blk.length - 1) 0 + 1) = nextPrime g'.lo
+                have hbn' := hbn
+                rw [hblk] at hbn' ⊢
+                exact primesHO_last_seam hbn' hlo
+            seamB := by intro hn; cases hn }
+        exact ⟨hlt, trivial, hhead, hinv', trivial⟩
+
 end Ps
